@@ -65,6 +65,20 @@ class Program:
                 self._inl[f.name] = f
         return self._inl[f.name]
 
+    def reinline(self, name):
+        """forget the analysis view of `name` (after inline.FORCE_INLINE changed) and build it again"""
+        self._inl.pop(name, None)
+        memo = self.__dict__.get("_inline_memo", {})
+        for k in [k for k in memo if k[0] == name]:
+            memo.pop(k, None)
+        f = self.fns_raw.get(name)
+        if f is not None and hasattr(f, "inlined_from"):
+            try:
+                del f.inlined_from
+            except Exception:
+                f.inlined_from = None
+        return self.inlined(f)
+
     def absorbed(self, f):
         """True when f is a private helper that every one of its callers has spliced into its own analysis view: such a helper
         is judged through its callers, not as a function in its own right (it has no contract of its own)."""
